@@ -165,12 +165,12 @@ func runC14(r *Report, tier string) {
 		EC2 := "call<(*Key).EC2>($0)"
 		SIZE := "call<%>(res<0>(" + EC2 + "))"
 		seen := map[int64]bool{}
-		for _, mp := range P.mapPuts(enc) {
+		for _, mp := range P.putInstances(enc, factSet{}, 0) {
 			if mp.key != -2 && mp.key != -3 {
 				continue
 			}
 			// padded values only: computed values, not the stored coordinate itself
-			var raw ssa.Value = mp.instr.Value
+			var raw ssa.Value = mp.val
 			if mi, ok := raw.(*ssa.MakeInterface); ok {
 				raw = mi.X
 			}
@@ -181,8 +181,8 @@ func runC14(r *Report, tier string) {
 			}
 			idx := map[int64]string{-2: "1", -3: "2"}[mp.key]
 			V := "res<" + idx + ">(" + EC2 + ")"
-			o := r.ob("R14.3", fmt.Sprintf("Key.MarshalCBOR:pad:%d", mp.key), enc, mp.instr, "padded coordinate is zeros(size-len(v)) ++ v for the coordinate of this label, under 0 < len(v) < size")
-			pi, why := P.leftPad(enc, raw, 0)
+			o := r.ob("R14.3", fmt.Sprintf("Key.MarshalCBOR:pad:%d", mp.key), mp.fn, mp.instr, "padded coordinate is zeros(size-len(v)) ++ v for the coordinate of this label, under 0 < len(v) < size")
+			pi, why := P.leftPadE(mp.eng, mp.fn, raw, 0)
 			if pi == nil {
 				o.fail("value is not the left-padding of this label's coordinate: " + why)
 				seen[mp.key] = true
@@ -191,6 +191,16 @@ func runC14(r *Report, tier string) {
 			_, okS := unify(mustPat(SIZE), pi.size, bindings{})
 			_, okV := unify(mustPat(V), pi.coord, bindings{})
 			fs := P.factsBefore(mp.instr).clone()
+			for _, f := range mp.ctx {
+				fs.add(f)
+			}
+			// facts of a constant-bound loop body about "the element" hold
+			// for this instance with the index fixed
+			if mp.eng != P.terms {
+				for _, f := range instanceFacts(P, mp.eng, mp.instr) {
+					fs.add(f)
+				}
+			}
 			gated := pi.gated == nil || fs.has(Fact{pi.gated, true})
 			if gated {
 				for _, f := range pi.guards {
